@@ -218,11 +218,25 @@ func parseGop(line string) (gop, bool) {
 
 var genericComps = []string{"", "a", "b", "c", "d", "e", "f", "g", "h", "i"}
 
+// The dummy face is not safe for concurrent Send (it appends to a slice); Express calls made from the callbacks of
+// timers that fire at the same instant are concurrent. The real faces serialise their writes; so does this wrapper.
+type lockedFace struct {
+	*dummy.DummyFace
+	mu sync.Mutex
+}
+
+func (f *lockedFace) Send(pkt enc.Wire) error {
+	f.mu.Lock()
+	defer f.mu.Unlock()
+	return f.DummyFace.Send(pkt)
+}
+
 type world struct {
 	eng   *basic.Engine
-	face  *dummy.DummyFace
+	face  *lockedFace
 	start time.Time
 
+	exprMu  sync.Mutex
 	mu      sync.Mutex
 	cbs     []string // callback observations of the current top-level op
 	nested  []string // nested op lines of the current top-level op
@@ -357,10 +371,14 @@ func (w *world) express(name []int, cbp bool, digK byte, digNm []int, digCid int
 		if nest != nil && nest.depth > 0 {
 			sub := &nestSpec{name: nest.name, cbp: nest.cbp, life: nest.life, depth: nest.depth - 1}
 			t := w.nowMs()
+			// Callbacks of timers that fire at the same instant run in parallel goroutines: make "take the next Interest
+			// id, call Express, record the call" one step, so that ids, PIT insertion order and the trace agree.
+			w.exprMu.Lock()
 			txt := w.express(nest.name, nest.cbp, '-', nil, 0, nest.life, sub)
 			w.mu.Lock()
 			w.nested = append(w.nested, fmt.Sprintf("nop %s by=%d t=%d", txt, pid, t))
 			w.mu.Unlock()
+			w.exprMu.Unlock()
 		}
 	}
 	if err := w.eng.Express(enci, cb); err != nil {
@@ -389,7 +407,9 @@ func (w *world) handler(hid int) ndn.InterestHandler {
 // drain the dummy face: every packet the engine transmitted since the last call, identified against what we handed in.
 func (w *world) drain() {
 	for {
+		w.face.mu.Lock()
 		buf, err := w.face.Consume()
+		w.face.mu.Unlock()
 		if err != nil {
 			return
 		}
@@ -510,7 +530,7 @@ func runCase(t *testing.T, ops []gop) []string {
 		for k := 1; k < len(genericComps); k++ {
 			w.intern[compOf(k).String()] = k
 		}
-		w.face = dummy.NewDummyFace()
+		w.face = &lockedFace{DummyFace: dummy.NewDummyFace()}
 		timer := basic.NewTimer()
 		passAll := func(enc.Name, enc.Wire, ndn.Signature) bool { return true }
 		w.eng = basic.NewEngine(w.face, timer, sec.NewSha256IntSigner(timer), passAll)
@@ -934,7 +954,7 @@ func watchdog(out *bufio.Writer, cur *atomic.Value, stop chan struct{}) {
 			continue
 		}
 		stall++
-		if stall >= 12 {
+		if stall >= 6 {
 			ops, _ := cur.Load().([]gop)
 			fmt.Fprintf(out, "deadlock at-op %d\n", now)
 			for _, g := range ops {
